@@ -415,7 +415,7 @@ def _t1(ctx: Context) -> None:
     gate = []
     for n in cfg.nodes:
         if n.kind == "test":
-            cp = compare_parts(n.exprs[0])
+            cp = compare_parts(n.exprs[0], left=lambda x: _u(x) == pkv)
             if cp and _u(cp[0]) == pkv and src(cp[2]) == f"len({buf})":
                 if cp[1] == "GtE":
                     gate += cfg.out_edges(n, ("F",))
@@ -426,7 +426,7 @@ def _t1(ctx: Context) -> None:
         ck.check("C16.T1", p is None, "the look-ahead read is bounds-tested (peek < len) first", f"{ctx.fkey(f)}:peek-bounds", "tlv_iterator reads the look-ahead byte without testing peek_offset < len(buffer)", ctx.loc(f, r))
     ck.require_min("C16.T1", "look-ahead reads", len(reads), 1)
     # same-type test
-    same = any(n.kind == "test" and (cp := compare_parts(n.exprs[0])) and cp[1] in ("NotEq", "Eq") and src(cp[0]) == f"{buf}[{pkv}]" and _u(cp[2]) == typv for n in cfg.nodes)
+    same = any(n.kind == "test" and (cp := compare_parts(n.exprs[0], left=lambda x: src(x) == f"{buf}[{pkv}]")) and cp[1] in ("NotEq", "Eq") and src(cp[0]) == f"{buf}[{pkv}]" and _u(cp[2]) == typv for n in cfg.nodes)
     ck.check("C16.T1", same, "fragments are merged only when the next TLV has the same type", f"{ctx.fkey(f)}:same-type", "tlv_iterator no longer compares the next type byte with the current type", f.loc())
     # merge: offset = peek; length = buf[offset+1]; value += buf[offset+2:][:length]
     merges = [n for n in asg.get(valv, []) if isinstance(n.ast, ast.AugAssign)]
@@ -460,7 +460,7 @@ def _t1(ctx: Context) -> None:
         oka = p is None
     ck.check("C16.T1", bool(oka), "after each item the offset advances by 2 + length of the last fragment", f"{ctx.fkey(f)}:advance", "tlv_iterator: the advance after an item is not offset += 2 + length", f.loc())
     # outer guard
-    outer = any(n.kind == "test" and (cp := compare_parts(n.exprs[0])) and cp[1] == "Lt" and _u(cp[0]) == offv and src(cp[2]) == f"len({buf})" for n in cfg.nodes)
+    outer = any(n.kind == "test" and (cp := compare_parts(n.exprs[0], left=lambda x: _u(x) == offv)) and cp[1] == "Lt" and _u(cp[0]) == offv and src(cp[2]) == f"len({buf})" for n in cfg.nodes)
     ck.check("C16.T1", outer, "items are read while offset < len(buffer)", f"{ctx.fkey(f)}:outer-guard", "tlv_iterator: the outer loop guard changed", f.loc())
     # tlv_array
     a = ctx.func(f"{M}.tlv_array")
